@@ -92,7 +92,14 @@ def _run(ctx):
     nnode = cfg.node(q.stmt(ncall))
     hvar, tvar = ncall.args
     if not isinstance(tvar, ast.Name):
-        raise AnalysisError('Notifications._maybe_notify: the notified set is not a plain local')
+        # the set handed to the sessions is built on the spot instead of being the one taken OUT of the pending containers:
+        # the pending entries are then still there when notify() suspends (a re-entrant call reports them again), or are
+        # removed by some other statement later - either way not what the removal rules below can follow
+        ctx.bad('C20.NODROP', ctx.key(mn, q.stmt(ncall), 'notified set'),
+                f'the notified set is `{norm(tvar)[:80]}`, not the set popped out of the pending containers before the notification: '
+                'entries stay pending across the suspension in notify() (reported twice by a re-entrant call, or deleted afterwards '
+                'together with what arrived meanwhile)', loc=ctx.loc(mn, ncall))
+        return
     if not isinstance(hvar, ast.Name):
         # the height handed to the sessions is not the local whose provenance is checked below: find that local through
         # the mempool pop (the set taken is the one recorded at the agreed height) and report the call
